@@ -71,6 +71,11 @@ pub enum TKind {
     Search { q: FVec, k: usize, scope: u64 },
     Poke { kind: PokeKind, id: u64 },
     Restart,
+    /// write again exactly what was written before: the previous version of the id
+    /// (prev = true) or its current version (prev = false), vector bits and metadata
+    Rewrite { id: u64, prev: bool, bulk: bool },
+    /// bulk read with repeated ids
+    BulkDup { ids: Vec<u64>, with_embeddings: bool },
 }
 
 #[derive(Clone, Debug, PartialEq, Serialize, Deserialize)]
@@ -113,9 +118,9 @@ pub fn decode_case(raw: &Raw, mode: Mode) -> TCase {
     }
     let pool = 3 + t.below(6);
     // weights: insert, delete, batch delete, update, bulk load, flush, tick, read, search, poke, restart
-    let weights: [u32; 11] = match mode {
-        Mode::C04 => [20, 5, 3, 6, 5, 4, 1, 20, 4, 12, if cfg.persist { 2 } else { 0 }],
-        Mode::C20 => [26, 4, 2, 4, 4, 3, 1, 16, 14, 4, if cfg.persist { 1 } else { 0 }],
+    let weights: [u32; 13] = match mode {
+        Mode::C04 => [20, 5, 3, 6, 5, 4, 1, 20, 4, 12, if cfg.persist { 2 } else { 0 }, 6, 4],
+        Mode::C20 => [26, 4, 2, 4, 4, 3, 1, 16, 14, 4, if cfg.persist { 1 } else { 0 }, 3, 3],
     };
     let ops = raw
         .chunks
@@ -156,7 +161,18 @@ pub fn decode_case(raw: &Raw, mode: Mode) -> TCase {
                     };
                     TKind::Poke { kind: t.pick(kinds), id: pick_tid(&mut t, pool) }
                 }
-                _ => TKind::Restart,
+                10 => TKind::Restart,
+                11 => TKind::Rewrite { id: pick_tid(&mut t, pool), prev: t.chance(160), bulk: t.chance(64) },
+                _ => {
+                    let n = 2 + t.below(4);
+                    let mut ids: Vec<u64> = (0..n).map(|_| pick_tid(&mut t, pool)).collect();
+                    let d = ids[t.below(ids.len())];
+                    ids.push(d);
+                    if t.chance(128) {
+                        ids.insert(0, d);
+                    }
+                    TKind::BulkDup { ids, with_embeddings: t.chance(160) }
+                }
             };
             TOp { kind, sweep }
         })
@@ -167,6 +183,7 @@ pub fn decode_case(raw: &Raw, mode: Mode) -> TCase {
 struct Prev {
     vec: Vec<f32>,
     token: VectorCoherenceToken,
+    meta: Meta,
 }
 
 pub struct Interp<'a> {
@@ -216,7 +233,8 @@ impl<'a> Interp<'a> {
     fn remember_prev(&mut self, id: u64) {
         let cold = self.te.engine.cold_tier();
         if let Some((v, tok)) = cold.fetch_document_with_coherence(id) {
-            self.prev.insert(id, Prev { vec: v, token: tok });
+            let meta = cold.fetch_metadata(id).map(|m| meta_from_hash(&m)).unwrap_or_default();
+            self.prev.insert(id, Prev { vec: v, token: tok, meta });
         }
     }
 
@@ -394,6 +412,54 @@ impl<'a> Interp<'a> {
                     self.prev.clear();
                     self.rep.label("restart");
                 }
+            }
+            TKind::Rewrite { id, prev, bulk } => {
+                // the exact (vector bits, metadata) of an earlier write to this id
+                let again: Option<(Vec<f32>, Meta)> = if *prev {
+                    self.prev.get(id).map(|p| (p.vec.clone(), p.meta.clone()))
+                } else {
+                    self.model.get(*id).map(|d| (d.vec_f32(), d.meta.clone()))
+                };
+                if let Some((v, m)) = again {
+                    self.remember_prev(*id);
+                    let existed = self.model.contains(*id);
+                    let hot_before = e.hot_tier().len();
+                    let r: Result<(), String> = if *bulk {
+                        match e.bulk_load_cold_tier(vec![(*id, v.clone(), meta_to_hash(&m))]) {
+                            Ok((1, 0, _, _)) => Ok(()),
+                            Ok((l, f, _, _)) => Err(format!("HNSW index full? loaded={} failed={}", l, f)),
+                            Err(err) => Err(format!("{:#}", err)),
+                        }
+                    } else {
+                        e.insert(*id, v.clone(), meta_to_hash(&m)).map_err(|err| format!("{:#}", err))
+                    };
+                    match r {
+                        Ok(()) => {
+                            if !*bulk && hot_before >= self.case.cfg.hot_hard {
+                                self.after_emergency = true;
+                                self.adopt_repaired_orphans();
+                            }
+                            self.adopt(*id, &v, &m, &what)?;
+                            self.orphans.remove(id);
+                            if existed {
+                                self.hot_ids.insert(*id);
+                            }
+                            self.rep.label(if *prev { "rewrite_previous_version" } else { "rewrite_same_version" });
+                        }
+                        Err(msg) => {
+                            let cap_ok = self.model.len() + self.orphans.len() >= self.case.cfg.capacity;
+                            if !(cap_ok && (msg.contains("HNSW index full") || msg.contains("emergency flush failed"))) {
+                                return Err(fail("valid_insert_rejected", self.step, &what, msg));
+                            }
+                            self.adopt_repaired_orphans();
+                        }
+                    }
+                }
+            }
+            TKind::BulkDup { ids, with_embeddings } => {
+                let ids = ids.clone();
+                self.read_check(if *with_embeddings { Flavour::BulkWithEmb } else { Flavour::BulkNoEmb }, &ids, &what)?;
+                self.rep.label("bulk_read_with_repeated_ids");
             }
         }
         // bounds (C20) after every operation
@@ -694,6 +760,8 @@ pub fn short(k: &TKind) -> String {
         TKind::Search { k, scope, .. } => format!("search(k={}, scope={})", k, scope),
         TKind::Poke { kind, id } => format!("poke({:?}, {})", kind, id),
         TKind::Restart => "restart".into(),
+        TKind::Rewrite { id, prev, bulk } => format!("rewrite({}, prev={}, bulk={})", id, prev, bulk),
+        TKind::BulkDup { ids, with_embeddings } => format!("bulk_read_dup({:?}, emb={})", ids, with_embeddings),
     }
 }
 
